@@ -335,3 +335,9 @@ package treeset
 //@     invariant forall x like set.tree.Root :: fresh(x) ==> x.tr == newSet.tree || x.tr == nil
 //@     invariant forall j :: 0 <= j && j <= iterator.index && j < N(set) ==> Mem(newSet, f(j, KeyAt(set, j)))
 //@     decreases N(set) - iterator.index
+
+//@ func New
+//@   modifies nothing
+//@   ensures [C04 C13 C15 C17] fresh(result) && Inv(result) && fresh(result.tree)
+//@   ensures [C04] forall x like keylike(result) :: Mem(result, x) <==> (exists j :: 0 <= j && j < len(values) && result.tree.Comparator(x, values[j]) == 0)
+//@   ensures [C04 C15] len(values) == 0 ==> N(result) == 0
